@@ -1015,7 +1015,8 @@ fn alloc_body<S: AllocSubject>(v: &[u64]) {
         }
         let calls = crate::alloc_count::calls() - before;
         let log = (usize::BITS - elems.leading_zeros()) as usize;
-        vassert!(calls <= S::STORAGES * (log + 2), "VF:alloc.more_than_logarithmic_allocator_calls");
+        // (O(log n) with a constant that admits any geometric growth factor down to 1.5, not only std's doubling)
+        vassert!(calls <= S::STORAGES * (2 * log + 4), "VF:alloc.more_than_logarithmic_allocator_calls");
         vcover!(calls > 0, "growth happened");
     } else {
         // after pre-sizing (reserve_items on an empty or populated region / merge_regions): no allocator call at all
@@ -1227,7 +1228,7 @@ fn log_case<R: Default>(n: usize, storages: usize, per_push: usize, put: impl Fn
     let calls = crate::alloc_count::calls() - before;
     let elems = 1 + n * per_push.max(1);
     let log = (usize::BITS - elems.leading_zeros()) as usize;
-    vassert!(calls <= storages * (log + 2), "VF:alloc.forms.more_than_logarithmic_allocator_calls");
+    vassert!(calls <= storages * (2 * log + 4), "VF:alloc.forms.more_than_logarithmic_allocator_calls");
     vcover!(calls > 0, "growth happened");
 }
 #[cfg(kani)]
